@@ -1686,6 +1686,9 @@ tunnel_dns(int tun_fd, int dns_fd, struct dnsfd *dns_fds, int bind_fd)
 	int read;
 	int domain_len;
 
+	/* Raw-mode handlers keep a copy of q: never let them store stack garbage */
+	memset(&q, 0, sizeof(q));
+
 	if ((read = read_dns(dns_fd, dns_fds, tun_fd, &q)) <= 0)
 		return 0;
 
